@@ -157,7 +157,7 @@ def stepTrace (σ : Option St) (ws : List String) : Option St × String :=
   | _, _ => (σ, "bad-op")
 
 /-- driver state: the trace machine of `Model.lean` and the index-side machine of `Index.lean`. -/
-abbrev DSt := Option St × Option Ix.St × Option Al.Cat × Option Sh.St
+abbrev DSt := Option St × Option Ix.St × Option Al.Cat × Option Sh.St × Option Sc.CSt
 
 def stepLine1 (σ : Option St) (line : String) : Option St × String :=
   match (line.trimAscii.toString.splitOn " ").filter (· ≠ "") with
@@ -175,9 +175,10 @@ def stepLine1 (σ : Option St) (line : String) : Option St × String :=
 def stepLine (σ : DSt) (line : String) : DSt × String :=
   match (line.trimAscii.toString.splitOn " ").filter (· ≠ "") with
   | "x" :: ws => let (x, ans) := Ix.stepX σ.2.1 ws; ((σ.1, x, σ.2.2), ans)
+  | "c" :: ws => let (x, ans) := Sc.stepC σ.2.2.2.2 ws; ((σ.1, σ.2.1, σ.2.2.1, σ.2.2.2.1, x), ans)
   | "g" :: ws => let (g, ans) := Al.stepG σ.2.2.1 ws; ((σ.1, σ.2.1, g, σ.2.2.2), ans)
   | "m" :: ws => (σ, Tier.stepM ws)
-  | "s" :: ws => let (x, ans) := Sh.stepS σ.2.2.2 ws; ((σ.1, σ.2.1, σ.2.2.1, x), ans)
+  | "s" :: ws => let (x, ans) := Sh.stepS σ.2.2.2.1 ws; ((σ.1, σ.2.1, σ.2.2.1, x, σ.2.2.2.2), ans)
   | _ => let (s, ans) := stepLine1 σ.1 line; ((s, σ.2), ans)
 
 partial def loop (h out : IO.FS.Stream) (σ : DSt) : IO Unit := do
@@ -188,7 +189,7 @@ partial def loop (h out : IO.FS.Stream) (σ : DSt) : IO Unit := do
   loop h out σ'
 
 def main : IO Unit := do
-  loop (← IO.getStdin) (← IO.getStdout) (none, none, none, none)
+  loop (← IO.getStdin) (← IO.getStdout) (none, none, none, none, none)
 
 end OG.C14
 
